@@ -243,9 +243,9 @@ func (f changeFinder) walkSlice(from, to *value) bool {
 		return equal
 	}
 
-	es := diff.Difference(from.Len(), to.Len(), func(i, j int) diff.Result {
+	es := diff.Difference(from.Len(), to.Len(), memoize(from.Len(), to.Len(), func(i, j int) diff.Result {
 		return compareNodes(from.Children[i], to.Children[j])
-	})
+	}))
 
 	regions := make([]Region, from.Len())
 	for i, n := range from.Children {
@@ -315,6 +315,25 @@ func (f changeFinder) walkSlice(from, to *value) bool {
 	return equal
 }
 
+// memoize returns an EqualFunc that calls f at most once for every pair of
+// indexes. diff.Difference may ask about the same pair several times, and
+// comparing two nodes compares their whole subtrees, lists included: without
+// this the cost doubles with every level of nesting.
+func memoize(nx, ny int, f diff.EqualFunc) diff.EqualFunc {
+	type entry struct {
+		result diff.Result
+		known  bool
+	}
+	seen := make([]entry, nx*ny)
+	return func(i, j int) diff.Result {
+		e := &seen[i*ny+j]
+		if !e.known {
+			e.result, e.known = f(i, j), true
+		}
+		return e.result
+	}
+}
+
 type nodeComparer struct{ diff.Result }
 
 func compareNodes(from, to *value) diff.Result {
@@ -362,11 +381,11 @@ func (c *nodeComparer) Walk(from, to *value) {
 			results[i] = make([]diff.Result, to.Len())
 		}
 
-		es := diff.Difference(from.Len(), to.Len(), func(i, j int) diff.Result {
+		es := diff.Difference(from.Len(), to.Len(), memoize(from.Len(), to.Len(), func(i, j int) diff.Result {
 			result := compareNodes(from.Children[i], to.Children[j])
 			results[i][j] = result
 			return result
-		})
+		}))
 
 		var i, j int
 		for _, e := range es {
